@@ -133,12 +133,16 @@ func (c09) Gen(r *Rng, tier string, emit func(string, Tok)) {
 		bs := psiRefEncodeUnit(d, nil)
 		emit("intact", L(I(1), B(bs)))
 		nbits := 8 * (len(bs) - 1)
-		if thorough && len(bs) <= 1100 {
+		if thorough && len(bs) <= 300 {
 			for bit := 8; bit < 8*len(bs); bit++ {
 				emit("bitflip-all", L(I(2), B(bs), I(int64(bit/8)), B([]byte{0x80 >> uint(bit%8)})))
 			}
 		} else {
-			for j := 0; j < 24; j++ {
+			nflips := 24
+			if thorough {
+				nflips = 200
+			}
+			for j := 0; j < nflips; j++ {
 				bit := 8 + r.Intn(nbits)
 				if j < 6 {
 					bit = 8 + r.Intn(24) // table id and section_length
